@@ -6,7 +6,7 @@ import (
 
 // Weights bias exploration only; in a replay every enabled action is addressable by index.
 type Weights struct {
-	Reply, ReplyErr, Emit, AdvEvent, Advance, ExtWrite, Stall, ConnDrop, ReplyBurst int
+	Reply, ReplyErr, Emit, AdvEvent, Advance, ExtWrite, Stall, ConnDrop, ReplyBurst, LateEnd int
 	Ack, AckSkip, AckStale, Park, Unpark                                            int
 	Close, Crash, Commit, Scrape, API, Publish, Persist, Failover                   int
 	EndStream                                                                       int
